@@ -31,6 +31,6 @@ def search_streams(tier, seed, diffs):
 
 
 MANIFEST = dict(
-    level_text="Theorems (Coq): C03_bmc_full_witness_accepted / _is_execution / _shortest - the same three statements as below for the model of the WHOLE of bmc() (Model/BmcWitFull.v): check_constraints on and off (the extra check-sat: unknown gives Unknown, unsat trips the assert_eq!), both checking modes with the calls in the order of the code, solver answers unknown (verdict Unknown) and error (Err), failing commands (set-logic, header, init_at, assert, check_assuming_end, unroll), a get-value that can fail at every symbol, assert!(k_max <= 2000); hypothesis: a sat answer comes with a model and get-value reports its values (nothing about unsat/unknown/errors; least depth needs right unsat answers). C03_witness_shape / C03_accepted_witness_shape - names and order of the system, one value of the right type per state (arrays included) and per input at each of the k+1 steps. C03_pdr_witness_is_execution / C03_pdr_witness_shortest - the concrete PDR model of C10 with its BMC fallback instantiated by that BMC model over the restarted solver (Model/PdrWit.v): every Fail(w) it returns, whatever the PDR conversation was, is accepted by check_witness / is a constrained execution from an initial state of at most MAX_FRAMES steps ending in exactly the reported bad states, of least length when the restarted solver's unsat answers are right. C03_bmc_full_extends_bmc_model - the older BMC model is the check_constraints=false / fault-free-solver instance of the full one. Run examples (vm_compute) with an enumerating solver, incl. the Unknown / Err / panic exits. Older statements: C03_bmc_witness_is_execution - for every system in the domain of C04_script3_wf (well-formed, distinct inputs, acyclic init dependencies), every bound and both checking modes, if the model of bmc.rs + get_witness over a solver whose sat answers come with a model returns Fail w, then w's step-0 valuation is initial and the run through w's inputs has k <= k_max steps, satisfies all constraints at every step and has EXACTLY the reported bad states at its last step; C03_bmc_witness_accepted, C03_bmc_witness_shortest (least depth under a complete solver); C03_check_witness_correct (the executable checker decides witness_ok for ALL well-formed systems and witnesses), C03_accepted_witness_is_execution. Tie to /repo: every Fail witness of the real patronus::mc::bmc / pdr (four solver profiles, z3 model-diversity settings, cvc5) is checked by the extracted check_witness, replayed in the interpreter, and the recorded get-value calls must equal the model's query list and yield the same witness.",
+    level_text="Theorems (Coq): C03_bmc_full_witness_accepted / _is_execution / _shortest - the same three statements as below for the model of the WHOLE of bmc() (Model/BmcWitFull.v): check_constraints on and off (the extra check-sat: unknown gives Unknown, unsat trips the assert_eq!), both checking modes with the calls in the order of the code, solver answers unknown (verdict Unknown) and error (Err), failing commands (set-logic, header, init_at, assert, check_assuming_end, unroll), a get-value that can fail at every symbol, assert!(k_max <= 2000); hypothesis: a sat answer comes with a model and get-value reports its values (nothing about unsat/unknown/errors; least depth needs right unsat answers). C03_witness_shape / C03_accepted_witness_shape - names and order of the system, one value of the right type per state (arrays included) and per input at each of the k+1 steps. C03_pdr_witness_is_execution / C03_pdr_witness_shortest - the concrete PDR model of C10 with its BMC fallback instantiated by that BMC model over the restarted solver (Model/PdrWit.v): every Fail(w) it returns, whatever the PDR conversation was, is accepted by check_witness / is a constrained execution from an initial state of at most MAX_FRAMES steps ending in exactly the reported bad states, of least length when the restarted solver's unsat answers are right. C03_bmc_full_extends_bmc_model - the older BMC model is the check_constraints=false / fault-free-solver instance of the full one. C03_pdr_fallback_finds_witness / C03_pdr_fallback_definite - with a truthful PDR oracle (class fin_class) and a restarted solver that is truthful on sat and unsat and fault-free, the composed model answers Unknown only when the frame limit is exceeded: whenever PDR gives up blocking, the BMC fallback returns the witness (C10's reachability within the frontier depth <= MAX_FRAMES + C02_bmc_full_exact); the fallback neither errs nor panics. Run examples (vm_compute) with an enumerating solver, incl. the Unknown / Err / panic exits. Older statements: C03_bmc_witness_is_execution - for every system in the domain of C04_script3_wf (well-formed, distinct inputs, acyclic init dependencies), every bound and both checking modes, if the model of bmc.rs + get_witness over a solver whose sat answers come with a model returns Fail w, then w's step-0 valuation is initial and the run through w's inputs has k <= k_max steps, satisfies all constraints at every step and has EXACTLY the reported bad states at its last step; C03_bmc_witness_accepted, C03_bmc_witness_shortest (least depth under a complete solver); C03_check_witness_correct (the executable checker decides witness_ok for ALL well-formed systems and witnesses), C03_accepted_witness_is_execution. Tie to /repo: every Fail witness of the real patronus::mc::bmc / pdr (four solver profiles, z3 model-diversity settings, cvc5) is checked by the extracted check_witness, replayed in the interpreter, and the recorded get-value calls must equal the model's query list and yield the same witness.",
     level_note="Trusted: Coq kernel; the solver is a Section hypothesis (sat answers come with a model of the asserted script) in C03_bmc_witness_is_execution; in the tie the witnesses are those the installed solvers happen to produce (diversity forced by seeds/phase settings and a second solver). The get-value text layer is C14's subject. The PDR conversation before the restart is the oracle of C10 (no hypothesis on it is needed for the witness theorems); that the solver after restart() depends only on the script it is given since is the modelling assumption of Model/PdrWit.v.",
 )
